@@ -7,7 +7,10 @@ def parseOpt (root : String) (j : Json) : Except String Opt := do
   match j.getObjVal? "auto" with
   | .ok b => pure (.autoRefresh (← b.getBool?))
   | .error _ =>
-    let ds ← (← getArr j "dirs").toList.mapM (·.getStr?)
+    -- no "dirs" member, null or [] all denote WithSpecDirs() with no directory
+    let ds : List String := match j.getObjVal? "dirs" with
+      | .ok (.arr a) => a.toList.filterMap (fun (x : Json) => x.getStr?.toOption)
+      | _ => []
     pure (.specDirs (ds.map fun d => (root ++ "/" ++ d).toUTF8.toList))
 
 def endsWith (s suffix : Str) : Bool := (s.drop (s.length - suffix.length)) == suffix
@@ -42,7 +45,9 @@ def handle : Handler := fun j => do
     let hasExisting ← getBool obs "hasexisting"
     let visible := getBoolD obs "visibleafterrefresh" true
     let (tFds, tInot, tWatches, tGor) := target
-    let shortLast := shortage + 1 == hist.length
+    -- the shortage hit the last Configure call of the history (file-system steps after it do not reconfigure)
+    let lastCfg : Int := ((List.range hist.length).filter (fun i => hist.getD i [] != [])).getLast?.map Int.ofNat |>.getD (-1)
+    let shortLast := shortage ≥ 0 && shortage == lastCfg
     -- after the history the harness queries the cache (in manual mode after a shortage at the last
     -- step it refreshes explicitly first), descriptors being available again
     let afterQueries := if shortLast && !final.fields.auto then refresh (envAt false) final else query (envAt false) final
@@ -75,6 +80,11 @@ def handle : Handler := fun j => do
        (if getBoolD obs "late" false then ["directory-created-afterwards"] else []) ++
        (if hist.any (· == []) then ["file-system-change-between-steps"] else []) ++
        (if hist.length ≥ 100 then ["long-history"] else [])))
+  | "defaultapi" =>
+    let same ← getBool obs "sameasfresh"
+    let judge : Option String := if p then some "panic" else if same then none
+      else some "package-level-function-differs-from-the-method-of-an-explicit-cache"
+    pure (verdict true judge Json.null ["default-cache-functions"])
   | "default" =>
     let same ← getBool obs "sameasfresh"
     let mode ← (← j.getObjVal? "mode").getStr?
